@@ -5,8 +5,19 @@
 //! Property oracle (on the implementation's own verdict): if the check says
 //! "no overlap" then brute-force enumeration of all valid indices must find no
 //! two indices with equal offset (only for shapes with ≤ 4096 elements).
+//!
+//! Completeness oracle (C08.T2, second clause of the property): section (c) builds layouts by
+//! applying random chains of real `TensorView` operations (permuted / transposed / move_axis /
+//! slice with positive steps and indices / slice_axis / index_axis / split_at / insert_axis /
+//! remove_axis / squeezed / merge_axes) to a contiguous tensor.  After every operation the
+//! view's own `(shape, strides)` is sent through the same `ov` request (so the model is
+//! compared too) and `may_have_internal_overlap` must answer `false`:
+//! PROPFAIL `derived layout rejected` otherwise.  `Derived` in `Props/C08.lean` is the proved
+//! counterpart (`merge_axes` is exercised here but is not a constructor of `Derived`).
 use hcommon::{Args, Out, Rng};
+use rten_tensor::prelude::*;
 use rten_tensor::verif::{is_contiguous, may_have_internal_overlap};
+use rten_tensor::{SliceItem, SliceRange, Tensor, TensorView};
 use std::collections::HashSet;
 
 fn brute_injective(shape: &[usize], strides: &[usize]) -> Option<bool> {
@@ -40,6 +51,12 @@ fn brute_injective(shape: &[usize], strides: &[usize]) -> Option<bool> {
 }
 
 fn one(out: &mut Out, shape: &[usize], strides: &[usize]) {
+    one_ex(out, shape, strides, None)
+}
+
+/// `derived`: `Some(chain text)` when the layout is the result of real view operations on a
+/// contiguous tensor, in which case the check must accept it.
+fn one_ex(out: &mut Out, shape: &[usize], strides: &[usize], derived: Option<&str>) {
     let req = format!(
         "ov {}",
         hcommon::join(shape.iter().zip(strides).map(|(a, b)| format!("{a},{b}")), " ")
@@ -55,17 +72,191 @@ fn one(out: &mut Out, shape: &[usize], strides: &[usize]) {
             let mut fail = None;
             if !ov {
                 if let Some(false) = brute_injective(shape, strides) {
-                    fail = Some("accepted layout maps two valid indices to one offset");
+                    fail = Some("accepted layout maps two valid indices to one offset".to_string());
                 }
+            } else if let Some(chain) = derived {
+                fail = Some(format!("derived layout rejected: contiguous {chain}"));
+            }
+            if derived.is_some() {
+                out.bucket(if shape.contains(&0) {
+                    "derived_empty"
+                } else if c {
+                    "derived_contig"
+                } else {
+                    "derived_noncontig"
+                });
             }
             (format!("overlap={} contig={}", ov as u8, c as u8), fail)
         }
         Err(m) => (format!("panic {m}"), None),
     };
+    let fail = fail.as_deref();
     let nontrivial = shape.len() >= 2 && shape.iter().all(|&s| s > 0) && shape.iter().any(|&s| s > 1);
     out.bucket(&format!("rank{}", shape.len()));
     out.bucket(if ans.starts_with("overlap=1") { "verdict_overlap" } else { "verdict_ok" });
     out.case(&req, &ans, fail, nontrivial);
+}
+
+/// One random chain of view operations on a contiguous tensor; every intermediate view is a
+/// case.  Operations are generated valid for the current shape (an `Err`/skipped op is
+/// counted in `derived_op_skipped`).
+fn derived_chain(out: &mut Out, rng: &mut Rng, thorough: bool) {
+    let rank = if rng.chance(1, 10) {
+        rng.usize_below(2)
+    } else {
+        2 + rng.usize_below(if thorough { 5 } else { 4 })
+    };
+    let max_size = match rank {
+        0..=3 => 9,
+        4 => 6,
+        5 => 5,
+        _ => 4,
+    };
+    let shape: Vec<usize> = (0..rank)
+        .map(|_| {
+            if rng.chance(1, 24) {
+                0
+            } else if rng.chance(1, 8) {
+                1
+            } else {
+                1 + rng.usize_below(max_size)
+            }
+        })
+        .collect();
+    let t = Tensor::<u8>::zeros(shape.as_slice());
+    let mut v: TensorView<u8> = t.view();
+    let mut chain = format!("[{}]", hcommon::join(shape.iter(), ","));
+    one_ex(out, v.shape().as_ref(), v.strides().as_ref(), Some(&chain));
+    let n_ops = 1 + rng.usize_below(if thorough { 10 } else { 6 });
+    for k in 0..n_ops {
+        let nd = v.ndim();
+        let sh: Vec<usize> = v.shape().to_vec();
+        let op = rng.below(14);
+        let (name, text): (&str, String) = match op {
+            0 | 11 if nd > 0 => {
+                let mut perm: Vec<usize> = (0..nd).collect();
+                rng.shuffle(&mut perm);
+                v = v.permuted(perm.as_slice());
+                ("perm", format!("perm{perm:?}"))
+            }
+            1 => {
+                v = v.transposed();
+                ("tr", "tr".into())
+            }
+            2 if nd > 0 => {
+                let (a, b) = (rng.usize_below(nd), rng.usize_below(nd));
+                v.move_axis(a, b);
+                ("mv", format!("mv{a}>{b}"))
+            }
+            3 | 4 | 12 | 13 if nd > 0 => {
+                // slice a prefix of the axes with ranges (positive steps) and indices
+                let n_items = 1 + rng.usize_below(nd);
+                let mut items = Vec::new();
+                let mut txt = String::from("sl");
+                for d in 0..n_items {
+                    let size = sh[d];
+                    if size > 0 && rng.chance(1, 5) {
+                        let i = rng.usize_below(size) as isize;
+                        let i = if rng.chance(1, 3) { i - size as isize } else { i };
+                        items.push(SliceItem::Index(i));
+                        txt += &format!(" i{i}");
+                    } else {
+                        let (start, end) = pick_range(rng, size);
+                        let step = if rng.chance(1, 3) { 1 } else { 1 + rng.usize_below(4) } as isize;
+                        let (mut s0, mut e0) = (start as isize, Some(end as isize));
+                        if rng.chance(1, 4) && start < size {
+                            s0 -= size as isize; // negative (from the end) spelling of the same start
+                        }
+                        if rng.chance(1, 4) {
+                            e0 = if end == size { None } else { Some(end as isize - size as isize) };
+                        }
+                        items.push(SliceItem::Range(SliceRange::new(s0, e0, step)));
+                        txt += &format!(" {s0}:{}:{step}", e0.map(|e| e.to_string()).unwrap_or_default());
+                    }
+                }
+                match v.try_slice(items.as_slice()) {
+                    Ok(nv) => {
+                        v = nv;
+                        ("slice", txt)
+                    }
+                    Err(_) => ("skipped", String::new()),
+                }
+            }
+            5 if nd > 0 => {
+                let a = rng.usize_below(nd);
+                let (s0, e0) = pick_range(rng, sh[a]);
+                v = v.slice_axis(a, s0..e0);
+                ("slice_axis", format!("sa{a}:{s0}..{e0}"))
+            }
+            6 if nd > 0 => {
+                let a = rng.usize_below(nd);
+                if sh[a] == 0 {
+                    ("skipped", String::new())
+                } else {
+                    let i = rng.usize_below(sh[a]);
+                    v = v.index_axis(a, i);
+                    ("index_axis", format!("ix{a}:{i}"))
+                }
+            }
+            7 if nd > 0 => {
+                let a = rng.usize_below(nd);
+                let mid = if sh[a] >= 2 && !rng.chance(1, 8) {
+                    1 + rng.usize_below(sh[a] - 1)
+                } else {
+                    rng.usize_below(sh[a] + 1)
+                };
+                let (l, r) = v.split_at(a, mid);
+                let right = rng.chance(1, 2);
+                v = if right { r } else { l };
+                ("split_at", format!("split{a}@{mid}{}", if right { "R" } else { "L" }))
+            }
+            8 => {
+                let a = rng.usize_below(nd + 1);
+                v.insert_axis(a);
+                ("insert_axis", format!("ia{a}"))
+            }
+            9 => {
+                let units: Vec<usize> = (0..nd).filter(|&d| sh[d] == 1).collect();
+                if units.is_empty() {
+                    ("skipped", String::new())
+                } else if rng.chance(1, 3) {
+                    v = v.squeezed();
+                    ("squeezed", "sq".into())
+                } else {
+                    let a = *rng.pick(&units);
+                    v.remove_axis(a);
+                    ("remove_axis", format!("ra{a}"))
+                }
+            }
+            10 => {
+                v.merge_axes();
+                ("merge_axes", "ma".into())
+            }
+            _ => ("skipped", String::new()),
+        };
+        out.bucket(&format!("derived_op_{name}"));
+        if name == "skipped" {
+            continue;
+        }
+        chain += " | ";
+        chain += &text;
+        out.bucket(&format!("derived_step{}", (k + 1).min(9)));
+        one_ex(out, v.shape().as_ref(), v.strides().as_ref(), Some(&chain));
+        if v.shape().contains(&0) && !rng.chance(1, 4) {
+            break; // an empty view stays empty; only sometimes keep going
+        }
+    }
+}
+
+/// `start..end` within `0..size`, non-empty 7 times out of 8 when possible.
+fn pick_range(rng: &mut Rng, size: usize) -> (usize, usize) {
+    if size > 0 && !rng.chance(1, 8) {
+        let start = rng.usize_below(size);
+        (start, start + 1 + rng.usize_below(size - start))
+    } else {
+        let start = rng.usize_below(size + 1);
+        (start, start + rng.usize_below(size - start + 1))
+    }
 }
 
 fn main() {
@@ -152,5 +343,19 @@ fn run(args: &Args) {
         }
         one(&mut out, &shape, &strides);
     }
-    out.finish("exhaustive (size,stride) lists of rank<=3 with sizes 0..3 and small strides, plus random layouts derived from contiguous ones by permutation, stepping, broadcasting, stride perturbation, arbitrary strides; non-trivial = rank>=2, no empty dim, some dim >1; distinct by request text");
+    // (c) completeness oracle: chains of real view operations on contiguous tensors.
+    let n = if args.thorough { 500_000 } else { 60_000 };
+    for _ in 0..n {
+        if let Err(m) = hcommon::catch(|| derived_chain(&mut out, &mut rng, args.thorough)) {
+            // a panic inside a view operation the generator believed valid
+            out.bucket("derived_chain_panic");
+            out.case(
+                "# derived chain",
+                "panic",
+                Some(&format!("view operation panicked on arguments valid for the current shape: {m}")),
+                false,
+            );
+        }
+    }
+    out.finish("exhaustive (size,stride) lists of rank<=3 with sizes 0..3 and small strides, plus random layouts derived from contiguous ones by permutation, stepping, broadcasting, stride perturbation, arbitrary strides; plus (completeness oracle) every intermediate view of random chains of 1..6 (thorough 1..10) real TensorView operations (permuted, transposed, move_axis, slice with ranges of step 1..4 / indices incl. negative spellings, slice_axis, index_axis, split_at, insert_axis, remove_axis, squeezed, merge_axes) applied to contiguous tensors of rank 0..5 (thorough 0..6), sizes 0..9, which must all be accepted; non-trivial = rank>=2, no empty dim, some dim >1; distinct by request text");
 }
